@@ -78,6 +78,14 @@ def explore(item, ctx, seed, easy_menu, clauses, quarter=True):
         # the two classes in different dtypes (see ordertypes.concretise_mixed)
         pos, neg, vals, pin, nin = ot.concretise_mixed(blocks, item["grid"])
         pos, neg = [float(x) for x in pos], [float(x) for x in neg]
+    elif item["grid"] == "unit":
+        m_ = len(blocks)
+        uvals = [0.0] if m_ == 1 else [i / (m_ - 1) for i in range(m_)]
+        pos, neg = [], []
+        for v, (a, c) in zip(uvals, blocks):
+            pos += [v] * a
+            neg += [v] * c
+        pin, nin = pos[::-1], neg[::-1]
     elif item["grid"] == "uint":
         pos, neg, vals = ot.concretise(blocks, "uint", seed)
         pin, nin = np.array(pos[::-1], dtype=np.uint8), np.array(neg[::-1], dtype=np.uint8)  # unsorted, unsigned
@@ -124,6 +132,37 @@ def explore(item, ctx, seed, easy_menu, clauses, quarter=True):
                     s2.pos, s2.neg = np.sort(np.asarray(pin)), np.sort(np.asarray(nin))
                     s2.nb_easy_pos, s2.nb_easy_neg = ep, en
                     objs.append(("queried with other scores, then attributes assigned", s2, pos, neg, ep, en))
+                # the same, but the object's own arrays are overwritten in place (same length): queried, scores written
+                # into .pos / .neg element by element, queried again
+                ok4, s4 = guarded(ctx, "construct", base_case, Scores, [v * 0.01 + mid_ for v in pos], [v * 0.01 + mid_ for v in neg],
+                                  nb_easy_pos=ep, nb_easy_neg=en, score_class=sc, equal_class=ec)
+                if ok4:
+                    for m_ in METRICS:
+                        guarded(ctx, "warm-up", base_case, lambda: (getattr(s4, "threshold_at_" + m_)(np.array([0.0, 0.4, 1.0])),
+                                                                     getattr(s4, m_)(np.array([0.0, 1.0]))))
+                    try:
+                        s4.pos[...] = np.sort(np.asarray(pin, dtype=float))
+                        s4.neg[...] = np.sort(np.asarray(nin, dtype=float))
+                        objs.append(("queried with other scores, then its arrays overwritten in place", s4, pos, neg, ep, en))
+                    except (ValueError, TypeError):  # read-only storage: nothing to overwrite
+                        pass
+            if item.get("grid") == "int" and (ep, en) == easy_menu[0] and pos and neg:
+                # integer arrays assigned to a live object (the constructor is not the only way scores get in)
+                ok5, s5 = guarded(ctx, "construct", base_case, Scores, [v + 0.5 for v in pos], [v - 0.25 for v in neg],
+                                  nb_easy_pos=ep, nb_easy_neg=en, score_class=sc, equal_class=ec)
+                if ok5:
+                    guarded(ctx, "warm-up", base_case, lambda: (s5.threshold_at_fnr(0.3), s5.threshold_at_topr(0.5)))
+                    s5.pos, s5.neg = np.array(sorted(int(v) for v in pos), dtype=np.int64), np.array(sorted(int(v) for v in neg), dtype=np.int16)
+                    objs.append(("integer arrays (int64 / int16) assigned to a live object", s5, pos, neg, ep, en))
+            if item.get("grid") == "unit" and (ep, en) in (easy_menu[0], easy_menu[-1]):
+                # the FraudScores view of the same data (scores in [0,1], 0.0 and 1.0 included) is a Scores object
+                from score_analysis.applications.doc_fraud import FraudScores
+
+                if ec == "pos":
+                    ok6, f6 = guarded(ctx, "construct-fraudscores", base_case, FraudScores, genuines=np.array(pin), frauds=np.array(nin),
+                                      nb_easy_genuines=ep, nb_easy_frauds=en, score_class="genuine" if sc == "pos" else "fraud")
+                    if ok6:
+                        objs.append(("FraudScores view", f6, pos, neg, ep, en))
             if item.get("mutated", False) and (ep, en) in ((0, 0), (1, 2)) and pos and neg:
                 from mc.derived import derived_objects
 
